@@ -347,7 +347,6 @@ WRAPPERS = [
     lambda p: '(' + p + ')',
     lambda p: 'local v__ = ' + p + '; v__',
     lambda p: '[' + p + '][0]',
-    lambda p: '{ x: ' + p + ' }.x',
     lambda p: 'if true then ' + p + ' else error "no"',
     lambda p: '(function() ' + p + ')()',
     lambda p: '(function(x) x)(' + p + ')',
@@ -365,7 +364,7 @@ def law_oracle(run, sides, asts, rng):
         p = gen_prog.pp(ast, _r.Random(seed), plain=True)
         t = gen_prog.pp(twin(ast), _r.Random(seed), plain=True)
         w = rng.choice(WRAPPERS)
-        # `$`, self and super are only meaningful inside the program's own objects: wrappers keep them intact
+        # no wrapper places the program inside an object: that would re-bind `$`
         variants.append((p, t, 'desugaring-law'))
         variants.append((p, w(p), 'wrapper'))
     texts = []
@@ -397,11 +396,11 @@ def uitests(run, sides):
         if rel.startswith(('import', 'tla')) or 'extVar' in rel or 'output' in rel:
             continue
         try:
-            text = open(f, encoding='utf-8').read()
+            text = open(f, encoding='utf-8', newline='').read()
         except Exception:
             continue
         out = f[:-len('.jsonnet')] + '.stdout'
-        expected = open(out, encoding='utf-8').read() if os.path.exists(out) else 'true\n'
+        expected = open(out, encoding='utf-8', newline='').read() if os.path.exists(out) else 'true\n'
         progs.append((rel, text, expected))
     impl = sides.run_impl([p[1] for p in progs], stack=500)
     idx = [i for i, (ev, ast) in enumerate(impl) if ast is not None]
@@ -467,17 +466,23 @@ def check(run):
                   'text of integral doubles below 2^53); other number texts are skipped and counted',
                   'std.trace messages are compared as sets (the model is call-by-name; exactly-once is C04)',
                   'StackOverflow and InfiniteRecursion are one class (the model has no thunk states; its frame count is an upper bound of the implementation\'s)']
+    import time as _t
+    t0 = _t.time()
     pres = vlib.prove(ID, THEOREMS, ALLOWED_AXIOMS)
     run.add_proof(pres, THEOREMS)
+    vlib.log('C02: proofs %.0fs' % (_t.time() - t0)); t0 = _t.time()
     sides = Sides()
+    vlib.log('C02: builds %.0fs' % (_t.time() - t0)); t0 = _t.time()
     # corpus first
     corp = corpus_programs()
     if corp:
         compare_programs(run, sides, corp, 'corpus', count_nontrivial=False)
+    vlib.log('C02: corpus %.0fs' % (_t.time() - t0)); t0 = _t.time()
     uitests(run, sides)
-    n = 1200 if run.tier == 'quick' else 40000
+    vlib.log('C02: ui-tests anchor %.0fs' % (_t.time() - t0)); t0 = _t.time()
+    n = 800 if run.tier == 'quick' else 40000
     sizes = [12, 25, 40, 60] if run.tier == 'quick' else [12, 25, 40, 60, 100, 150]
-    batch = 600 if run.tier == 'quick' else 2000
+    batch = 400 if run.tier == 'quick' else 2000
     done = 0
     ndis = 0
     import random as _r
@@ -501,6 +506,7 @@ def check(run):
         done += len(progs)
         if ndis > 40:
             break
+    vlib.log('C02: generated programs + oracle %.0fs' % (_t.time() - t0))
 
 
 def replay(run, path):
